@@ -326,14 +326,19 @@ func main() {
 		if opts.Tier == "thorough" {
 			nbig = 10
 		}
-		for i := 0; i < nbig*opts.Scale; i++ {
+		for i := 0; i < 2*nbig*opts.Scale; i++ {
 			_ = root.Split()
 			rows := 6000
 			cols := [][]int64{make([]int64, rows), make([]int64, rows)}
 			for j := 0; j < rows; j++ {
-				// shard 0 holds the small keys, shard 1 the large ones: in every reducer the
-				// stream from shard 1 is the last one left in the merge
+				// one shard holds the small keys, the other the large ones: in every reducer the
+				// stream from the large-key shard is the last one left in the merge (even i:
+				// shard 1, odd i: shard 0, so that whichever stream a kill hits is the last
+				// one in one of the two variants)
 				cols[0][j] = int64(j)
+				if i%2 == 1 {
+					cols[0][j] = int64(rows - 1 - j)
+				}
 				cols[1][j] = int64(j % 7)
 			}
 			p := prog.Prog{Nodes: []prog.Node{{Op: "const", N: 2, Types: []string{"i", "i"}, Cols: cols}, {Op: "reduce", In: []int{0}, Comb: "sum"}}}
@@ -350,6 +355,9 @@ func main() {
 			}
 			for j := 0; j < len(reads) && j < 4; j++ {
 				for _, b := range []int{2000, 4000} {
+					if i%2 == 1 && b == 4000 {
+						continue
+					}
 					descs = append(descs, Desc{Prog: p, Procs: 1, Kills: []Kill{{At: j, Target: "midread", Bytes: b}}})
 				}
 			}
